@@ -336,7 +336,10 @@ func (self *Analyzer) listLiteralExpression(node pAst.ListLiteralExpression) ast
 				self.diagnostics = append(self.diagnostics, *err.ExpectedDiagnostic)
 			}
 			listType = ast.NewUnknownType()
-		} else if listType.Kind() == ast.AnyTypeKind {
+		} else if listType.Kind() == ast.AnyTypeKind || listType.Kind() == ast.NeverTypeKind ||
+			(isNonePlaceholderOption(listType) && valExpression.Type().Kind() == ast.OptionTypeKind) {
+			// The first element that says something about the element type fixes it: an element which never
+			// yields a value (`throw(..)`) or a bare `none` fits every type and would accept all the others.
 			listType = valExpression.Type()
 		}
 	}
